@@ -29,14 +29,22 @@ Definition spec_query32 (for128 : bool) (ws : list Z) (i : Z) : option (Z * Z) :
 (** number of 1-bits of one word, bit by bit *)
 Definition pop1 (w : Z) : Z := count_true (bits 64 w).
 
-(** entry k of a 64-bit index = sum of the bit counts of the first k words *)
-Definition spec_prefix_sums (ws : list Z) (n : nat) : list Z :=
-  map (fun k => sumZ (map pop1 (firstn k ws))) (seq 0 n).
+(** running sums: [acc; acc + x0; acc + x0 + x1; ...] (one entry more than the list) *)
+Fixpoint psums (l : list Z) (acc : Z) : list Z :=
+  acc :: match l with [] => [] | x :: t => psums t (acc + x) end.
 
-(** the three indexes of one bitmap: without / with the trailing total, and every other entry of the latter *)
+(** every other element, starting with the first *)
+Fixpoint evens (l : list Z) : list Z :=
+  match l with
+  | [] => []
+  | [x] => [x]
+  | x :: _ :: t => x :: evens t
+  end.
+
+(** the three indexes of one bitmap: the running sums of the per-word bit counts without / with the final
+    total, and every other entry of the latter *)
 Definition spec_indexes (ws : list Z) : list Z * list Z * list Z :=
-  (spec_prefix_sums ws (length ws), spec_prefix_sums ws (length ws + 1),
-   map (fun k => sumZ (map pop1 (firstn (2 * k) ws))) (seq 0 (length ws / 2 + 1))).
+  let p := psums (map pop1 ws) 0 in (removelast p, p, evens p).
 
 (** the laws a pair of answers at positions [i <= j] must satisfy (no counting involved):
     [qi], [qj] = the answers of the three flavours at [i] and [j], [tot] = the trailing total *)
@@ -58,6 +66,8 @@ Definition law_check (nbits i j : Z) (qi qj : list (Z * Z)) (tot : Z) : bool :=
 
 (** * histories over several bitmaps: queries in any order, and overwriting one word in place *)
 Inductive flavour : Type := F64 (trailing : bool) | F128.
+Definition is128 (f : flavour) : bool := match f with F128 => true | _ => false end.
+Definition flavours : list flavour := [F64 false; F64 true; F128].
 
 Inductive hstep : Type :=
 | HQ (f : flavour) (b i : Z)      (* query bitmap [b] at position [i] with its index of flavour [f] *)
@@ -74,6 +84,9 @@ Fixpoint set_nth {A} (l : list A) (k : nat) (x : A) : list A :=
   | _ :: t, O => x :: t
   | y :: t, S k' => y :: set_nth t k' x
   end.
+
+(** the overwriting words are 64-bit words *)
+Definition hstep_ok (s : hstep) : Prop := match s with HSet _ _ w => word_ok w | HQ _ _ _ => True end.
 
 (** every query answers for the CURRENT contents of its bitmap, whatever was asked or overwritten before;
     [None] = the step names no bitmap / no word (outside the domain of the op) *)
